@@ -22,6 +22,9 @@ B == Trace[IF l = 0 THEN 1 ELSE l]
 IsOnce == B.kind = "once"
 \* every token of the profile was handed out exactly once; every goroutine saw the end exactly once
 AllTokensOnce   == l = 0 \/ ~IsOnce \/ \A i \in 1..Len(B.trials) : B.trials[i].ok = B.n /\ B.trials[i].end = B.g
+\* a drained limited schedule reports exactly 0 left (never negative: its length is known), however its last
+\* token was fought over
+LeftZeroAfterDrain == l = 0 \/ ~IsOnce \/ \A i \in 1..Len(B.trials) : B.trials[i].leftend = 0
 \* all tokens and all finish times of a once(n) profile are ONE instant
 OneStartInstant == l = 0 \/ ~IsOnce \/ \A i \in 1..Len(B.trials) : B.trials[i].dist = 1
 \* an unlimited(1 h) part that nobody started: every Next() gets a token (the hour is not over), and every Left(),
